@@ -27,8 +27,15 @@ void h_decode_gain(void)
 #else
    __CPROVER_assume(!null_data && len >= 2);
 #endif
+#ifdef VERIF_CH
+   __CPROVER_assume(st->channels == VERIF_CH && st->frame_size == VERIF_FRAME * F2_5);   /* concrete shapes: every buffer size is a constant (symbolic sizes cost 25 M clauses) */
+#endif
    frame_size = st->frame_size; gain = st->decode_gain;
+#ifdef VERIF_FIXED_PCM
+   { static opus_res pcm_store[2 * 2 * (VERIF_FS / 400)]; pcm = pcm_store; }    /* fixed capacity (memory safety of the glue is C01's subject) */
+#else
    pcm = malloc((size_t)frame_size * st->channels * sizeof(opus_res)); __CPROVER_assume(pcm != NULL);
+#endif
    __CPROVER_assume(0 <= len && len <= VERIF_MAXLEN);
    if (!null_data) { data = malloc(len > 0 ? len : 1); __CPROVER_assume(data != NULL); for (i = 0; i < VERIF_MAXLEN; i++) if (i < len) data[i] = nondet_uchar(); }
    verif_K = nondet_int(); __CPROVER_assume(0 <= verif_K && verif_K < frame_size * st->channels);
